@@ -26,7 +26,7 @@ import (
 const tShared = "TestSharedQueueIterator"
 
 type sharedCase struct {
-	Via     string `json:"via"` // iterator | producer
+	Via     string `json:"via"` // iterator | producer (Queue) | deque-iterator | deque-producer (Deque.ProducerBlocking)
 	Readers int    `json:"readers"`
 	Initial int    `json:"initial"`
 	Adds    int    `json:"adds"`
@@ -40,15 +40,29 @@ func runShared(c *sharedCase) (string, string) {
 		defer runtime.GOMAXPROCS(old)
 	}
 	limit := vkit.Limit()
-	q := pubsub.NewUnlimitedQueue[int]()
-	for i := 0; i < c.Initial; i++ {
-		_ = q.Add(i)
-	}
 	var read fun.Producer[int]
-	if c.Via == "iterator" {
-		read = q.Iterator().ReadOne
+	var add func(int) error
+	var closeBox func() error
+	if c.Via == "deque-iterator" || c.Via == "deque-producer" {
+		dq := pubsub.NewUnlimitedDeque[int]()
+		add, closeBox = dq.PushBack, dq.Close
+		for i := 0; i < c.Initial; i++ {
+			_ = add(i)
+		}
+		read = dq.ProducerBlocking()
+		if c.Via == "deque-iterator" {
+			read = dq.ProducerBlocking().Iterator().ReadOne
+		}
 	} else {
+		q := pubsub.NewUnlimitedQueue[int]()
+		add, closeBox = q.Add, q.Close
+		for i := 0; i < c.Initial; i++ {
+			_ = add(i)
+		}
 		read = q.Producer()
+		if c.Via == "iterator" {
+			read = q.Iterator().ReadOne
+		}
 	}
 	ctx, cancel := context.WithCancel(context.Background())
 	defer cancel()
@@ -76,14 +90,14 @@ func runShared(c *sharedCase) (string, string) {
 	}
 	for i := 0; i < c.Adds; i++ {
 		vkit.Yield(c.Yields[i%len(c.Yields)])
-		_ = q.Add(c.Initial + i)
+		_ = add(c.Initial + i)
 	}
 	want := c.Initial + c.Adds
 	count := func() int { mu.Lock(); defer mu.Unlock(); return total }
 	arrived := vkit.Eventually(limit, func() bool { return count() >= want })
 	// let a surplus show itself before the queue is closed
 	time.Sleep(time.Millisecond)
-	_ = q.Close()
+	_ = closeBox()
 	done := make(chan struct{})
 	go func() { wg.Wait(); close(done) }()
 	select {
@@ -149,7 +163,7 @@ func TestSharedQueueIterator(t *testing.T) {
 			return
 		}
 		c := &sharedCase{
-			Via:     rapid.SampledFrom([]string{"iterator", "producer"}).Draw(t, "via"),
+			Via:     rapid.SampledFrom([]string{"iterator", "producer", "deque-iterator", "deque-producer"}).Draw(t, "via"),
 			Readers: rapid.IntRange(2, 5).Draw(t, "readers"),
 			Initial: rapid.IntRange(0, 6).Draw(t, "initial"),
 			Adds:    rapid.IntRange(1, 40).Draw(t, "adds"),
